@@ -101,6 +101,8 @@ def run(repo: Repo, chk: Check, thorough: bool = False) -> None:
         if cg.models.get(m, 0) < n:
             chk.error(f'dispatch model {m} matched {cg.models.get(m, 0)} site(s), expected at least {n}')
 
+    for prob in Escape.fixture_selfcheck():
+        chk.error(f'escape-engine self check: {prob}')
     # the phase entries must still be what driver.main runs
     main = repo.func('pydoctor.driver.main')
     reach_main = cg.reachable_from([main])
@@ -210,6 +212,19 @@ def run(repo: Repo, chk: Check, thorough: bool = False) -> None:
     raises = [n for n in pm.walk() if isinstance(n, ast.Raise)]
     chk.ob('R01.2', 'System.processModule :: no raise', not raises,
            'no raise statement' if not raises else f'raise at line {raises[0].lineno}', pm.loc)
+    # the processing stack is balanced on every path of processModule (an unparsable module must not leak its name)
+    apps = [c for c in calls_in(pm) if call_name(c) == 'append' and isinstance(c.func, ast.Attribute) and
+            (dotted(c.func.value) or '').endswith('processing_modules')]
+    pops = [c for c in calls_in(pm) if call_name(c) == 'pop' and isinstance(c.func, ast.Attribute) and
+            (dotted(c.func.value) or '').endswith('processing_modules')]
+    if not apps or not pops:
+        chk.error('System.processModule: processing_modules.append/pop not found')
+    for a in apps:
+        ok = cfg.must_pass(cfg.stmt_of(a), cfg.EXIT, [cfg.stmt_of(p) for p in pops], no_exc=True)
+        chk.ob('R01.2', f'System.processModule :: {norm(a)[:50]} is popped on every path', ok,
+               'every normal path from the push to the end of processModule pops it' if ok else
+               'a path (e.g. the unparsable-file path) leaves the module name on processing_modules: the next nested module trips the '
+               '`assert head == mod.fullName()` and aborts the run', repo.loc(pm.mod, a))
     proc = repo.func('pydoctor.model.System.process')
     loops = [n for n in proc.walk() if isinstance(n, ast.While) and 'unprocessed_modules' in norm(n.test)]
     in_loop = [c for l in loops for st in l.body for c in ast.walk(st) if isinstance(c, ast.Call) and call_name(c) == 'processModule']
@@ -217,7 +232,7 @@ def run(repo: Repo, chk: Check, thorough: bool = False) -> None:
     chk.ob('R01.2', 'System.process :: drain loop', bool(in_loop),
            'while self.unprocessed_modules: ... processModule(mod)' if in_loop else 'drain loop over unprocessed_modules not found',
            proc.loc)
-    chk.require('R01.2', 9)
+    chk.require('R01.2', 11)
 
     # ---- R01.3 barrier census
     for q, partial in BARRIERS.items():
